@@ -92,7 +92,9 @@ def main(prop, tier="quick", seed=0, replay=None, only=None, jobs=None):
     known = load_known()
     merr = [r for r in results if "machinery_error" in r]
     viol_new, viol_known = [], {}
-    os.makedirs(os.path.join(VERIF, "replays", prop), exist_ok=True)
+    scratch_run = bool(only) or os.environ.get("VERIF_REPO", "/repo") != "/repo"
+    replay_root = os.path.join("/tmp", "verif_scratch_replays") if scratch_run else os.path.join(VERIF, "replays")
+    os.makedirs(os.path.join(replay_root, prop), exist_ok=True)
     for r in results:
         for v in r.get("violations", []):
             vprop = v.get("property", prop)
@@ -105,7 +107,7 @@ def main(prop, tier="quick", seed=0, replay=None, only=None, jobs=None):
                 viol_known.setdefault(k["id"], []).append(recd)
             else:
                 h = hashlib.sha1(json.dumps([recd["cfg"], recd["rule"]], default=str).encode()).hexdigest()[:12]
-                path = os.path.join(VERIF, "replays", prop, h + ".json")
+                path = os.path.join(replay_root, prop, h + ".json")
                 json.dump(recd, open(path, "w"), indent=1, default=str)
                 viol_new.append((recd, path))
     # summary lines
@@ -158,10 +160,14 @@ def main(prop, tier="quick", seed=0, replay=None, only=None, jobs=None):
     ev = dict(property_id=prop, tier=tier, seed=seed, level=level, coverage=cov,
               assumptions=list(getattr(mod, "ASSUMPTIONS", [])), wall_s=round(wall, 2),
               violations=len(viol_new))
-    os.makedirs(os.path.join(VERIF, "evidence"), exist_ok=True)
-    tmp = os.path.join(VERIF, "evidence", prop + ".json.tmp")
+    # Runs against a scratch worktree (VERIF_REPO) or over a subset of the configurations (--only) are for testing the
+    # machinery: they must not overwrite the evidence of the registered command.
+    scratch = bool(only) or os.environ.get("VERIF_REPO", "/repo") != "/repo"
+    evdir = os.path.join("/tmp", "verif_scratch_evidence") if scratch else os.path.join(VERIF, "evidence")
+    os.makedirs(evdir, exist_ok=True)
+    tmp = os.path.join(evdir, prop + ".json.tmp")
     json.dump(ev, open(tmp, "w"), indent=1, default=str)
-    os.replace(tmp, os.path.join(VERIF, "evidence", prop + ".json"))
+    os.replace(tmp, os.path.join(evdir, prop + ".json"))
     print(f"{prop} tier={tier} seed={seed}: configs={len(results)} " + " ".join(f"{k}={v}" for k, v in tot.items() if v)
           + f" exhaustive={exhaustive} new_violations={len(viol_new)} known={len(viol_known)} wall={wall:.1f}s")
     if merr:
